@@ -102,14 +102,16 @@ CLAIMED["C08"] = {
             "(emitters_guarded: Announce/Sync/Follow_Up/Delay_Resp only from a port that was Master, Delay_Req only from the Slave "
             "port, sync/delay measurements only on the Slave port; BMCA runs emit no frames); what a port that is not Slave hands its "
             "servo is a peer delay result and nothing else (non_slave_port_feeds_peer_delay_only), on which an unarmed Kalman servo programs "
-            "no frequency (C13). Model tied by the inst stream "
+            "no frequency (C13). Port::handle_announce_receipt_timer (the one place a port makes itself Master outside a BMCA run) is translated from "
+            "the source on every run - order of the tests, the slave-only condition, forced state and timer actions of each branch - and proved "
+            "equal to the model's handler for all ports and instance states (generated_receipt_timer_is_model). Model tied by the inst stream "
             "(states, frame types, measurements, demobilisations after every op) plus an independent role oracle on the implementation; "
             "oracle-only stream kports: the real Kalman servo on every port of one- to three-port instances (E2E / P2P), no host call on a "
             "port that is not Slave reaches Clock::set_frequency / step_clock through that port.",
     "note": "Trusted: Lean kernel; generators. 'Adjusts the clock' is modelled as 'hands a sync/delay measurement to its filter': the "
             "servo itself is the host's Filter implementation (what the shipped Kalman servo then does is sampled by kports, not proved). The BMCA hypothesis (every port passed exactly once) is what "
             "PtpInstance::bmca asserts / the borrow checker enforces.",
-    "technique": "Lean 4 theorems (invariant by induction over host histories) + differential correspondence + independent role oracle",
+    "technique": "Lean 4 theorems (invariant by induction over host histories) + the announce receipt timeout handler translated from the source on every run and proved equal to the model + differential correspondence + independent role oracle",
 }
 
 CLAIMED["C10"] = {
